@@ -108,6 +108,49 @@ namespace {
     };
 }
 
+// ---------------------------------------------------------------- intrusive TreiberStack: harness-owned items, released after the stack
+namespace {
+    namespace ci = cds::intrusive;
+    template <class GC> struct SItem: ci::treiber_stack::node<GC> { Val v; };
+    inline std::vector<std::shared_ptr<void>>& graveyard() { static std::vector<std::shared_ptr<void>> g; return g; }
+    template <class GC, bool Elim, class Buffer, class ElimBackoff>
+    struct itr_traits: ci::treiber_stack::traits {
+        typedef ci::treiber_stack::base_hook< cds::opt::gc<GC> > hook;
+        typedef ci::treiber_stack::stat<> stat;
+        static constexpr const bool enable_elimination = Elim;
+        typedef Buffer buffer;
+        typedef ElimBackoff elimination_backoff;
+        typedef cds::atomicity::item_counter item_counter;
+    };
+    template <class S, class Item>
+    struct IntrStackAdapter: Attach {
+        std::unique_ptr<S> s;
+        // clear() retires the nodes and the retired-node callback (clear_links + disposer) writes into them whenever the SMR gets round to it:
+        // the items must outlive the SMR singleton, so they go to a graveyard that main() empties after ~HP/~DHP
+        std::shared_ptr<std::deque<Item>> items;
+        std::mutex items_lock;
+        IntrStackAdapter() : s( new S ), items( new std::deque<Item> ) {}
+        ~IntrStackAdapter() { s->clear(); s.reset(); graveyard().push_back( items ); }
+        Item* alloc() { std::lock_guard<std::mutex> g( items_lock ); items->emplace_back(); return &items->back(); }
+        int64_t capacity() { return -1; }
+        int64_t exec( int op, int64_t uid, int64_t, int64_t& )
+        {
+            switch ( op ) {
+            case S_PUSH_BACK: { Item* it = alloc(); it->v = Val( uid ); return s->push( *it ) ? 1 : 0; }
+            case S_POP_BACK: {
+                Item* p = s->pop();
+                if ( !p ) return -1;
+                return p->v.good() ? p->v.uid : (( int64_t( 1 ) << 62 ) | ( p->v.uid & 0xffffff ));
+            }
+            case S_EMPTY: return s->empty() ? 1 : 0;
+            case S_CLEAR: s->clear(); return 0;
+            }
+            return -9;
+        }
+        void mechanisms( PropStats& ps ) { MechTreiber::get( *s, ps ); }
+    };
+}
+
 int main( int argc, char** argv )
 {
     parse_args( argc, argv );
@@ -133,6 +176,12 @@ int main( int argc, char** argv )
         run_stack< StackAdapter< cc::TreiberStack<DHP, Val, tr_traits<true, initialized_dynamic_buffer<int>, ElShort, BoD, Rlx>>, MechTreiber, Attach, true >>( "TreiberStack<DHP,elimdyn2,short,backoff>", true, 4, 8 );
         run_stack< StackAdapter< cc::TreiberStack<HP, Val, tr_traits<true, initialized_dynamic_buffer<int>, ElD, BoE, Rlx>>, MechTreiber, Attach, true >>( "TreiberStack<HP,elimdyn2,default>", true, 3, 6 );
 
+        {
+            typedef SItem<HP> I1; typedef SItem<DHP> I2;
+            run_stack< IntrStackAdapter< ci::TreiberStack<HP, I1, itr_traits<HP, false, initialized_static_buffer<int, 4>, ElD>>, I1 > >( "intrusive::TreiberStack<HP,noelim>", true, 2, 4 );
+            run_stack< IntrStackAdapter< ci::TreiberStack<DHP, I2, itr_traits<DHP, true, initialized_static_buffer<int, 2>, ElShort>>, I2 > >( "intrusive::TreiberStack<DHP,elim2,short>", true, 4, 8 );
+            run_stack< IntrStackAdapter< ci::TreiberStack<HP, I1, itr_traits<HP, true, initialized_static_buffer<int, 1>, ElShort>>, I1 > >( "intrusive::TreiberStack<HP,elim1,short>", true, 4, 8 );
+        }
         run_stack< StackAdapter< cc::FCStack<Val, std::stack<Val>, fc_traits<false, cds::sync::spin, fc::wait_strategy::backoff<>>>, MechFC, Attach >>( "FCStack<noelim,deque,backoff>", true, 2, 4 );
         run_stack< StackAdapter< cc::FCStack<Val, std::stack<Val, std::vector<Val>>, fc_traits<true, cds::sync::spin, fc::wait_strategy::backoff<>>>, MechFC, Attach >>( "FCStack<elim,vector,backoff>", true, 3, 6 );
         run_stack< StackAdapter< cc::FCStack<Val, std::stack<Val, std::list<Val>>, fc_traits<true, std::mutex, fc::wait_strategy::empty>>, MechFC, Attach >>( "FCStack<elim,list,mutex,empty>", true, 2, 4 );
@@ -140,5 +189,6 @@ int main( int argc, char** argv )
         run_stack< StackAdapter< cc::FCStack<Val, std::stack<Val>, fc_traits<false, cds::sync::spin, fc::wait_strategy::single_mutex_multi_condvar<>>>, MechFC, Attach >>( "FCStack<noelim,sm>", true, 2, 4 );
         run_stack< StackAdapter< cc::FCStack<Val, std::stack<Val>, fc_traits<true, cds::sync::spin, fc::wait_strategy::multi_mutex_multi_condvar<>>>, MechFC, Attach >>( "FCStack<elim,mm>", true, 2, 4 );
     }
+    graveyard().clear();     // the SMR singletons are gone: nothing refers to the intrusive items any more
     return finish( "stack" );
 }
